@@ -713,6 +713,9 @@ NUM_ALPHABET = "019.eE+-a_"
 REGRESSION = ['import "" as a; .', 'import "" as $a {x: 1}; include ""; .', 'import "" as a; . .[0]', ". .[0]", ". . [ .a ]", ".a | . .[1:2]",
               ". .[1:2]", ". .[0]?", ". .[0].a[1]", ". .a", '. ."a"', '. . "a"', ". .[]", ".[]", ".[0]", "..[0]", ".. .[0]", "..[]", ". .[:1]",
               "-. .[0]", "[. .[0]]", '"\\(. .[0])"', "1.[0]", ". .[. .[0]]"]
+# a number literal ending in every digit, then a dotted suffix: the printer must keep the separating space (seeded C09_10)
+REGRESSION += [w % (n + sfx) for n in [str(d) for d in range(10)] + ["1%d" % d for d in range(10)] + ["1.%d" % d for d in range(10)] + ["2e%d" % d for d in (0, 8, 9)]
+               for sfx in (" .x", ' ."x"', " .x.y", " .x?", ' ."x"?') for w in ("%s", "[.[] | %s]", "try (%s) catch .")]
 
 
 def run(tier, seed, replay):
